@@ -340,7 +340,10 @@ def r15(ctx, rep):
             defs = c2.reaching_defs().get(nid, {}).get(v.id, ())
             vals = [c2.nodes[d].ast.value for d in defs if d != c2.entry and isinstance(c2.nodes[d].ast, ast.Assign)]
             v = vals[0] if len(vals) == 1 else v
-        if isinstance(v, ast.Call) and (dotted(v.func) or "").split(".")[-1] == "clip" or (isinstance(v, ast.BinOp) and mentions(v, "xl") and mentions(v, "xu")):
+        nested_minmax = isinstance(v, ast.Call) and (dotted(v.func) or "").split(".")[-1] in ("minimum", "maximum") and v.args and isinstance(v.args[0], ast.Call) \
+            and (dotted(v.args[0].func) or "").split(".")[-1] in ("minimum", "maximum") and (dotted(v.args[0].func) or "").split(".")[-1] != (dotted(v.func) or "").split(".")[-1] \
+            and mentions(v, "xl") and mentions(v, "xu")
+        if nested_minmax or isinstance(v, ast.Call) and (dotted(v.func) or "").split(".")[-1] == "clip" or (isinstance(v, ast.BinOp) and mentions(v, "xl") and mentions(v, "xu")):
             rep.ok("R1.5", f"{pinit.local}:{last.lineno} fixed values lie within [xl, xu]")
         else:
             rep.bad("R1.5", "fixed values")
